@@ -26,6 +26,51 @@ theorem bucket_in_range (b : Nat) (hb : 1 ≤ b) (r t : List UInt8) :
     ∃ i, i < b ∧ partitionKey .txnBucket b r t = decimal i :=
   ⟨PgBifrost.Crc32.quickHash t b, Nat.mod_lt _ (by omega), rfl⟩
 
+theorem map_inj_on {α β} (f : α → β) : ∀ (l₁ l₂ : List α),
+    (∀ a ∈ l₁, ∀ b ∈ l₂, f a = f b → a = b) → l₁.map f = l₂.map f → l₁ = l₂
+  | [], [], _, _ => rfl
+  | [], _ :: _, _, h => by simp at h
+  | _ :: _, [], _, h => by simp at h
+  | a :: l₁, b :: l₂, hinj, h => by
+    simp only [List.map_cons, List.cons.injEq] at h
+    have hab := hinj a (by simp) b (by simp) h.1
+    have := map_inj_on f l₁ l₂ (fun x hx y hy => hinj x (by simp [hx]) y (by simp [hy])) h.2
+    rw [hab, this]
+
+theorem digit_byte_inj (a b : Char) (ha : a.isDigit) (hb : b.isDigit)
+    (h : a.toNat.toUInt8 = b.toNat.toUInt8) : a = b := by
+  simp only [Char.isDigit, Bool.and_eq_true, decide_eq_true_eq] at ha hb
+  have h' := congrArg UInt8.toNat h
+  simp only [Nat.toUInt8, UInt8.toNat_ofNat'] at h'
+  have ha1 : a.val.toNat = a.toNat := rfl
+  have hb1 : b.val.toNat = b.toNat := rfl
+  have h48 : '0'.val.toNat = 48 := rfl
+  have h57 : '9'.val.toNat = 57 := rfl
+  have a1 := UInt32.le_iff_toNat_le.mp ha.1
+  have a2 := UInt32.le_iff_toNat_le.mp ha.2
+  have b1 := UInt32.le_iff_toNat_le.mp hb.1
+  have b2 := UInt32.le_iff_toNat_le.mp hb.2
+  apply Char.ext
+  apply UInt32.toNat_inj.mp
+  omega
+
+/-- the decimal rendering is injective: two different buckets never share a partition key -/
+theorem decimal_injective (i j : Nat) (h : decimal i = decimal j) : i = j := by
+  unfold decimal at h
+  have := map_inj_on _ _ _ (fun a ha b hb hab =>
+    digit_byte_inj a b (Nat.isDigit_of_mem_toDigits (by omega) (by omega) ha)
+      (Nat.isDigit_of_mem_toDigits (by omega) (by omega) hb) hab) h
+  have h2 := congrArg (fun l => Nat.ofDigitChars 10 l 0) this
+  simpa [Nat.ofDigitChars_ten_toDigits] using h2
+
+/-- 'transaction-bucket': equal keys mean the same bucket number, so with `bucket_in_range` the
+keys are in one-to-one correspondence with the configured buckets `0 … b-1` -/
+theorem bucket_key_same_bucket (b : Nat) (r₁ r₂ t₁ t₂ : List UInt8)
+    (h : partitionKey .txnBucket b r₁ t₁ = partitionKey .txnBucket b r₂ t₂) :
+    PgBifrost.Crc32.quickHash t₁ b = PgBifrost.Crc32.quickHash t₂ b := decimal_injective _ _ h
+
+example : decimal 7 ≠ decimal 17 := by decide
+
 /-- 'tablename': the key is the relation, so equal keys mean one table -/
 theorem tablename_key_single_table (b : Nat) (r₁ r₂ t₁ t₂ : List UInt8)
     (h : partitionKey .tableName b r₁ t₁ = partitionKey .tableName b r₂ t₂) : r₁ = r₂ := h
